@@ -167,7 +167,8 @@ fn tx_byzantine(p: &mut Prng, t: &elements::Transaction, reference: &[u8], segs:
         1 => {
             // superfluous null issuance on an input that has none: set bit 31 of vout, append nonce|entropy|00|00 after sequence
             let mut pos = 4 + 1 + medium::varint_len(t.input.len() as u64);
-            let cands: Vec<usize> = (0..t.input.len()).filter(|k| !t.input[*k].has_issuance() && t.input[*k].previous_output.vout != 0xffff_ffff).collect();
+            // (an index of 2^30-1 on a pegin input would become the coinbase marker 0xffffffff once bit 31 is set)
+            let cands: Vec<usize> = (0..t.input.len()).filter(|k| !t.input[*k].has_issuance() && t.input[*k].previous_output.vout < (1 << 30) - 1).collect();
             if cands.is_empty() {
                 return None;
             }
@@ -595,7 +596,8 @@ impl World for CodecWorld {
                 out.push(Case { deliveries: vec![case.deliveries[i].clone()], ..case.clone() });
             }
         }
-        if case.deliveries.len() == 1 && case.deliveries[0].len() > 1 {
+        // a byzantine re-framing is one logical fault made of several edits: never split it
+        if case.deliveries.len() == 1 && case.deliveries[0].len() > 1 && !case.deliveries[0].iter().any(|e| e.label.starts_with("byz.")) {
             for i in 0..case.deliveries[0].len() {
                 out.push(Case { deliveries: vec![vec![case.deliveries[0][i].clone()]], ..case.clone() });
             }
